@@ -624,6 +624,7 @@ def ret_as_predicate(W, fnpath):
         return r
     IN = flow.must_facts(fn, ev)
     subj = {}
+    nsites = 0
     for bl in fn.blocks:
         if bl.idx not in fn.reachable():
             continue
@@ -632,16 +633,21 @@ def ret_as_predicate(W, fnpath):
                 val = ev.rvalue(st["rv"], (bl.idx, i))
                 if not (isinstance(val, tuple) and val[0] == "int" and val[1] in (0, 1)):
                     return r
-                found = None
+                found = []
                 for rel in flow.rel_facts_at(IN, bl.idx):
                     if rel[0] in ("Eq", "Ne") and isinstance(rel[1], tuple) and rel[1][0] == "discr" and isinstance(rel[2], tuple) and rel[2][0] == "int" and rel[2][1] in (0, 1):
                         x = values.strip_payload(rel[1][1])
                         variant = rel[2][1] if rel[0] == "Eq" else 1 - rel[2][1]
                         if is_call(x):
-                            found = (x, variant)
-                if found is None:
+                            found.append((x, variant))
+                if not found:
                     return r
-                subj.setdefault(found[0], set()).add((val[1], found[1]))
+                nsites += 1
+                for x, variant in found:
+                    subj.setdefault(x, set()).add((val[1], variant))
+    # the subject of the match is the value whose variant differs between the `true` and the `false` arm (a value that was matched earlier,
+    # e.g. by a let-else that diverges, has the same variant on both)
+    subj = {x: pr for x, pr in subj.items() if len({v for (_b, v) in pr}) == 2}
     if len(subj) != 1:
         return r
     x, pairs = next(iter(subj.items()))
